@@ -9,6 +9,7 @@ import (
 	"encoding/json"
 	"fmt"
 	"os"
+	"runtime"
 	"strings"
 	"sync"
 	"sync/atomic"
@@ -37,6 +38,7 @@ type StoreScenario struct {
 	Idle  int       `json:"idle"`
 	Ops   []StoreOp `json:"ops"`
 	Conc  bool      `json:"conc"` // run Thr groups concurrently (memory-store linearizability)
+	Post  []StoreOp `json:"post"` // concurrent scenarios: operations run one after the other once every goroutine has finished (they read the final state)
 	Pre   []StoreOp `json:"pre"`  // concurrent scenarios: operations and clock advances run one after the other before the goroutines start
 }
 
@@ -375,11 +377,19 @@ func (d *storeDriver) run(sc *StoreScenario) error {
 		}
 		var wg sync.WaitGroup
 		start := make(chan struct{})
+		// a spin barrier after the channel: the goroutines leave it within a few instructions of one another, so that
+		// their first calls really overlap (a closed channel alone wakes them one scheduler tick apart)
+		var arrived atomic.Int32
+		want := int32(len(groups))
 		for thr, ops := range groups {
 			wg.Add(1)
 			go func(thr int, ops []StoreOp) {
 				defer wg.Done()
 				<-start
+				arrived.Add(1)
+				for arrived.Load() < want {
+					runtime.Gosched()
+				}
 				for _, op := range ops {
 					do(op, thr)
 				}
@@ -387,6 +397,9 @@ func (d *storeDriver) run(sc *StoreScenario) error {
 		}
 		close(start)
 		wg.Wait()
+		for _, op := range sc.Post {
+			do(op, 0)
+		}
 		d.rec.emit(map[string]any{"ev": "send", "scenario": sc.ID})
 		return nil
 	}
